@@ -73,6 +73,10 @@ func loadCorpus(path string) {
 	// a few hand-written entries aimed at the places where nondeterminism lives
 	corpus.Guess = append(corpus.Guess, `"a.b"`, `"1.5"`, `"1e2"`, `"-0"`, `1.0`, `1e2`, `"true"`, `"null"`, `12.`, `"12"`)
 	corpus.Enum = append(corpus.Enum, `["a.b", "1.5", 1]`, `["1e2", 1e2, "x"]`, `[1, 1.0, "1"]`, `["a.b"]`)
+	for _, br := range badRules {
+		corpus.JInvalid = append(corpus.JInvalid, `"abc" // `+br, "{\n  \"k\": 1 // "+br+"\n}")
+	}
+	corpus.Regex = append(corpus.Regex, `/[a-/`, `/(/`, `/a{2,1}/`, `/\\l/`)
 }
 
 var refRe = regexp.MustCompile(`@[A-Za-z0-9_]+`)
@@ -88,8 +92,24 @@ type gctx struct {
 	depth int
 }
 
+// badRules are annotation values that are malformed or contradict the value
+// they annotate: each drives a different rejection path (constraint
+// constructors, compiler, checker). The same bad text recurs across objects
+// and runs, so state remembered from a failed attempt has something to hit.
+var badRules = []string{
+	`{regex: "[a-"}`, `{regex: "x-(\\d"}`, `{regex: "*"}`, `{regex: 5}`,
+	`{min: "a"}`, `{min: 5, max: 1}`, `{minLength: -1}`, `{maxLength: 1.5}`, `{precision: 0}`, `{precision: 2}`,
+	`{type: "nope"}`, `{type: "integer", type: "string"}`, `{enum: []}`, `{enum: [1, 1]}`, `{enum: "x"}`,
+	`{or: []}`, `{or: [{type: "nope"}]}`, `{or: [{type: "integer"}]}`, `{const: 5}`, `{optional: 1}`, `{nullable: "yes"}`,
+	`{additionalProperties: "nope"}`, `{allOf: "@zz"}`, `{minItems: 5}`, `{foo: 1}`, `{exclusiveMinimum: true}`,
+	`{type: "email", minLength: 1}`, `{type: "uuid", regex: "a"}`, `{type: "any", min: 1}`, `{type: "@zz1"}`, `{serializeFormat: "x"}`,
+}
+
 func (g *gctx) scalar() (string, string) {
 	r := g.r
+	if r.pct(9) {
+		return r.pick([]string{`"abc"`, `1`, `"x"`, `12.5`, `true`}), r.pick(badRules)
+	}
 	switch r.n(12) {
 	case 0:
 		return strconv.Itoa(r.n(200) - 50), []string{``, `{min: 0}`, `{type: "integer"}`, `{max: 1000, min: -100}`, `{const: true}`, `{optional: true}`, `{nullable: true}`}[r.n(7)]
